@@ -202,6 +202,13 @@ func c09Exec(x *engine.Ctx, cc any) {
 		}
 		content := config.CertificateContent{Subject: append(pkix.RDNSequence{}, rdn...)}
 		got := config.Validate(prof, content)
+		// a second look at the same certificate (a caller that plans again) must give the same verdict; a verdict
+		// that leaves the subject in another order is noted, and reported when it changes what the second look says
+		if again := config.Validate(prof, content); again != got {
+			x.ViolationCase("C09/validate/second-verdict-differs",
+				fmt.Sprintf("profile attrs=%v optional=%v allowOther=%v, subject %q: first verdict %v, second verdict on the same objects %v (the subject now reads %v)", c.Attrs, c.Optional, c.AllowOther, c09SubjectString(s), got, again, content.Subject),
+				&c09Case{Kind: "pure", HasList: c.HasList, Attrs: c.Attrs, Optional: c.Optional, AllowOther: c.AllowOther, Subject: s})
+		}
 		// the profile is shared by every certificate that names it: a verdict must not alter it
 		changed := len(prof.SubjectAttributes.Attributes) != len(c.Attrs) && c.HasList
 		for i := 0; !changed && c.HasList && i < len(c.Attrs); i++ {
@@ -347,7 +354,7 @@ func init() {
 	register(&engine.Check{
 		ID:          "C09",
 		Level:       "model_checking",
-		Rule:        "every profile = (attribute list of length 0..4 over {CN,O,C,1.2.3.4} x optional flag) x allowOther, plus the absent list (9363 profiles) x every subject of length 1..5 over {CN,O,C,1.2.3.4,L} (3905), and the same product over {1.2.3.4, 2.5.4.97, CN} with subjects over those plus L (3108 profiles x 1364 subjects): config.Validate on the real parsed RDN sequence vs. the reference predicate transcribed from the statement, one profile object shared by all its subjects as in a run and compared with its definition after every verdict; plus 7 profiles x 9 subjects x 3 positions of the constrained entity in a root->mid->leaf chain through the whole file pipeline (rejected => planning error, empty write log), on a fresh directory and on a directory first generated under a profile of the same name without subject rules and then run with default / -m only / all four reasons / -a; and three forbidden subjects with the read of the profile file breaking off after every possible number of bytes (the subject must not be certified, whatever arrived). Pairs are distinct by construction; states = profiles, transitions = Validate calls / runs",
+		Rule:        "every profile = (attribute list of length 0..4 over {CN,O,C,1.2.3.4} x optional flag) x allowOther, plus the absent list (9363 profiles) x every subject of length 1..5 over {CN,O,C,1.2.3.4,L} (3905), and the same product over {1.2.3.4, 2.5.4.97, CN} with subjects over those plus L (3108 profiles x 1364 subjects): config.Validate on the real parsed RDN sequence vs. the reference predicate transcribed from the statement, one profile object shared by all its subjects as in a run and compared with its definition after every verdict, every verdict asked for twice on the same objects; plus 7 profiles x 9 subjects x 3 positions of the constrained entity in a root->mid->leaf chain through the whole file pipeline (rejected => planning error, empty write log), on a fresh directory and on a directory first generated under a profile of the same name without subject rules and then run with default / -m only / all four reasons / -a; and three forbidden subjects with the read of the profile file breaking off after every possible number of bytes (the subject must not be certified, whatever arrived). Pairs are distinct by construction; states = profiles, transitions = Validate calls / runs",
 		Bound:       map[string]string{"profile length": "<=4", "subject length": "<=5", "alphabet": "3 short names + 1 custom OID + 1 foreign attribute"},
 		Assumptions: []string{"profile attributes that the schema allows but no table resolves (PC, DC, T, UID, MAIL) are outside the statement"},
 		Budget:      budgets(quickBudget, thoroughBudget),
